@@ -344,7 +344,7 @@ func (c *c13Check) Run(seed, run uint64, rec []uint32, st Stats, only *Viol) []V
 	progB := prelude + "e := " + recv + ".try" + chain + "\n" +
 		"rA := e.A\nrVal := e.val\nrErr := e.err\nrValQ := e.val?\nrErrQ := e.err?\nrOr := e.or(777)\nrEnd := e.end\n" +
 		fmt.Sprintf("rCatchAny := e.catch(Err){|x| S(%d); 4242}.A\n", handlerSlot) +
-		fmt.Sprintf("rCatchT := e.catch(TypeErr){|x| S(%d); 4243}.A\nrCatchV := e.catch(ValueErr){|x| S(%d); 4244}.A\nrCatchZ := e.catch(ZeroDivisionErr){|x| S(%d); 4245}.A\n", handlerSlot+1, handlerSlot+2, handlerSlot+3) +
+		fmt.Sprintf("rCatchT := e.catch(TypeErr){|x| S(%d); 4243}.A\nrCatchV := e.catch(ValueErr){|x| S(%d); {try: 5, a: 1}}.A\nrCatchZ := e.catch(ZeroDivisionErr){|x| S(%d); BaseObj.bear({a: 2})}.A\n", handlerSlot+1, handlerSlot+2, handlerSlot+3) +
 		"rIgnT := e.ignore(TypeErr).A\nrIgnN := e.ignore(NoPropErr).A\n" +
 		"rIgnTQ := [e.ignore(TypeErr).err?, e.ignore(TypeErr).val?]\nrCatchNilQ := e.catch(ValueErr){|x| nil}.err?\n" +
 		"e.abandon\n"
@@ -557,7 +557,10 @@ func (c *c13Check) Run(seed, run uint64, rec []uint32, st Stats, only *Viol) []V
 		for nm, k := range map[string]string{"rCatchT": "TypeErr", "rCatchV": "ValueErr", "rCatchZ": "ZeroDivisionErr"} {
 			v, e, ok := pair(get(nm))
 			if k == a.kind {
-				chk(nm, ok && isNil(e) && strings.HasPrefix(insp(v), "424"), "[424x, nil]", insp(get(nm)))
+				// whatever the handler returns is the new value, also when it is an object with a
+				// `try` of its own or one that does not descend from Obj
+				wantV := map[string]string{"rCatchT": "4243", "rCatchV": `{"a": 1, "try": 5}`, "rCatchZ": `{"a": 2}`}[nm]
+				chk(nm, ok && isNil(e) && insp(v) == wantV, "["+wantV+", nil]", insp(get(nm)))
 			} else {
 				chk(nm, ok && isNil(v) && sameErr(e), want, insp(get(nm)))
 			}
